@@ -68,6 +68,10 @@ type Config struct {
 	NoProofMod   bool
 	NoProofFac   bool
 
+	// ShareKeys hands the caller's key data to the parties without the protective copy of Xi (as a
+	// production caller would): needed to observe in-place modification of stored key material.
+	ShareKeys bool
+
 	// SeedOverride lets a harness choose the DRBG label of individual nodes (C01 nonce classes).
 	SeedOverride map[int]string
 }
@@ -154,7 +158,7 @@ func makeIDs(keys []*big.Int, order []int, prefix string) tss.SortedPartyIDs {
 // New builds the parties (constructors only; nothing is started).
 func New(cfg Config) (*Network, error) {
 	// the caller-held key data of this network is private to it: resharing erases Xi in place
-	if cfg.EcKeys != nil {
+	if cfg.EcKeys != nil && !cfg.ShareKeys {
 		cp := make([]eckg.LocalPartySaveData, len(cfg.EcKeys))
 		for i := range cfg.EcKeys {
 			cp[i] = cfg.EcKeys[i]
@@ -164,7 +168,7 @@ func New(cfg Config) (*Network, error) {
 		}
 		cfg.EcKeys = cp
 	}
-	if cfg.EdKeys != nil {
+	if cfg.EdKeys != nil && !cfg.ShareKeys {
 		cp := make([]edkg.LocalPartySaveData, len(cfg.EdKeys))
 		for i := range cfg.EdKeys {
 			cp[i] = cfg.EdKeys[i]
